@@ -7,6 +7,7 @@ import (
 	"math/big"
 	"strconv"
 	"strings"
+	"sync"
 
 	"golang.org/x/tools/go/ssa"
 )
@@ -35,6 +36,38 @@ func pkgPathOf(fn *ssa.Function) string {
 		return o.Pkg.Pkg.Path()
 	}
 	return ""
+}
+
+// sharedPtrs are heap cells that are immutable and shared by every path (never deep-copied).
+var sharedPtrs sync.Map
+
+// deepConcreteEq is concreteEq extended to structures and arrays.
+func deepConcreteEq(a, b value) (eq bool, ok bool) {
+	switch x := a.(type) {
+	case structure:
+		y, isS := b.(structure)
+		if !isS || len(x) != len(y) {
+			return false, isS
+		}
+		for i := range x {
+			if eq, ok := deepConcreteEq(x[i], y[i]); !ok || !eq {
+				return false, ok
+			}
+		}
+		return true, true
+	case array:
+		y, isA := b.(array)
+		if !isA || len(x) != len(y) {
+			return false, isA
+		}
+		for i := range x {
+			if eq, ok := deepConcreteEq(x[i], y[i]); !ok || !eq {
+				return false, ok
+			}
+		}
+		return true, true
+	}
+	return concreteEq(a, b)
 }
 
 func termConstInt(v value) (int64, bool) {
@@ -228,6 +261,30 @@ func (e *Engine) intrinsic(name string, fn *ssa.Function) (handler, bool) {
 		if strings.HasPrefix(name, "(*sync.Map)") {
 			return nil, false // executed / unsupported
 		}
+	case pkg == "unique" && strings.HasPrefix(short, "Make"):
+		// unique.Make: one canonical pointer per distinct (concrete) value; the pointers are shared
+		// between paths (never deep-copied) so that handles stored in package variables by the
+		// initialisers stay comparable with handles made later
+		return func(c *frame, f *ssa.Function, a []value) value {
+			rt := f.Signature.Results().At(0).Type()
+			h := zero(rt).(structure)
+			for _, u := range e.uniq {
+				eq, ok := deepConcreteEq(*u, a[0])
+				if !ok {
+					unsup("unique.Make of a symbolic value")
+				}
+				if eq {
+					h[0] = u
+					return h
+				}
+			}
+			p := new(value)
+			*p = copyVal(a[0])
+			sharedPtrs.Store(p, true)
+			e.uniq = append(e.uniq, p)
+			h[0] = p
+			return h
+		}, true
 	case pkg == "sync/atomic":
 		if h, ok := e.atomicIntrinsic(name, fn); ok {
 			return h, true
@@ -266,39 +323,46 @@ func (e *Engine) intrinsic(name string, fn *ssa.Function) (handler, bool) {
 			return []value{structure{"\x00" + s, (*value)(nil), IntC(0)}}
 		}, true
 	case "net/netip.AddrFrom4", "net/netip.AddrFrom16":
-		// minimal netip model: a valid Addr is one whose zone handle is non-zero (IsValid compares z with
-		// the zero handle); the address bytes are kept in addr.lo/hi the way netip does for IPv4
+		// netip model: the address bytes are packed arithmetically into addr.hi/lo the way netip does
+		// (IPv4 as ::ffff:a.b.c.d); the zone handle is netip's own z4 / z6noz (see unique.Make below),
+		// so the rest of net/netip (Is4, Prefix, Contains, Compare, ...) is executed as it is
 		return func(c *frame, f *ssa.Function, a []value) value {
 			rt := f.Signature.Results().At(0).Type()
 			st := zero(rt).(structure)
 			ut := rt.Underlying().(*types.Struct)
 			arr := a[0].(array)
+			n := len(arr)
+			pack := func(from int) *Term {
+				w := IntC(0)
+				for k := 0; k < 8 && from+k < n; k++ {
+					w = AddX(MulX(w, IntC(256)), arr[from+k].(*Term))
+				}
+				return w
+			}
+			zname := "z4"
+			if n == 16 {
+				zname = "z6noz"
+			}
+			var z value
+			if f.Pkg != nil {
+				if g, ok := f.Pkg.Members[zname].(*ssa.Global); ok {
+					z = copyVal(*e.global(g))
+				}
+			}
 			for i := 0; i < ut.NumFields(); i++ {
 				switch ut.Field(i).Name() {
 				case "z":
-					h := st[i].(structure)
-					dummy := new(value)
-					*dummy = IntC(int64(len(arr)))
-					if e.netipZ == nil {
-						e.netipZ = map[int]*value{}
+					if z != nil {
+						st[i] = z
 					}
-					if p, ok := e.netipZ[len(arr)]; ok {
-						dummy = p
-					} else {
-						e.netipZ[len(arr)] = dummy
-					}
-					h[0] = dummy
 				case "addr":
 					u := st[i].(structure)
-					lo := IntC(0)
-					n := len(arr)
-					for k := 0; k < 8 && k < n; k++ {
-						lo = AddX(lo, MulX(arr[n-1-k].(*Term), BigC(pow2(uint(8*k)))))
-					}
 					if n == 4 {
-						lo = AddX(lo, BigC(new(big.Int).Lsh(big.NewInt(0xffff), 32)))
+						u[len(u)-1] = AddX(pack(0), BigC(new(big.Int).Lsh(big.NewInt(0xffff), 32)))
+					} else {
+						u[0] = pack(0)
+						u[len(u)-1] = pack(8)
 					}
-					u[len(u)-1] = lo
 				}
 			}
 			return st
